@@ -269,6 +269,36 @@ def st_unit_nullable_pattern(draw):
 
 
 @st.composite
+def st_nullable_lead_pattern(draw):
+    """LL(1) grammars in which a production starts with nullable symbols followed by a terminal (N1 -> N2 x, N2 -> b |
+    empty) and is itself used in leading position or right after another nullable symbol: FIRST(N1) must contain the
+    terminal behind the nullable prefix, and so must the FIRST sets of everything that starts with N1"""
+    ts = draw(st.permutations([k for k in gk.TERMINAL_KINDS if not k.startswith("KW_")]))[:5]
+    b, x, y, z, c = ts
+    n2 = draw(st.sampled_from([[[b], []], [[], [b]], [[b, "N2"], []]]))
+    n1 = [["N2", x] + draw(st.lists(st.sampled_from([y, b, "N2"]), max_size=1))]
+    if draw(st.booleans()):
+        n1.insert(draw(st.integers(0, 1)), [z])
+    variant = draw(st.integers(0, 2))
+    prods = {}
+    if variant == 0:
+        prods["N0"] = [["N1", y]]
+    elif variant == 1:
+        prods["N0"] = [["N3", "N1", y]]
+        prods["N3"] = draw(st.sampled_from([[[c], []], [[], [c]]]))
+    else:
+        prods["N0"] = [["N4", y]]
+        prods["N4"] = [["N1"] + draw(st.lists(st.sampled_from([c]), max_size=1))]     # a further level above N1
+    if draw(st.booleans()):
+        prods["N0"] = prods["N0"] + [[y, c]]
+    prods["N1"] = n1
+    prods["N2"] = n2
+    order = draw(st.permutations(sorted(prods)))
+    prods = {k: prods[k] for k in order}
+    return {"prods": prods, "start": "N0", "terms": list(ts)}
+
+
+@st.composite
 def st_follow_chain(draw):
     """LL(1) grammars whose FOLLOW sets need several propagation steps: N0 -> N1 x ; N1 -> t1 N2 ; ... ; Nk -> tk | empty"""
     ts = draw(st.permutations([k for k in gk.TERMINAL_KINDS if not k.startswith("KW_")]))[:5]
@@ -292,7 +322,8 @@ def st_case(draw):
     if dom == "A":
         g = draw(st_ll1_grammar())
     elif dom == "F":
-        g = draw(st_follow_pattern()) if draw(st.booleans()) else draw(st_unit_nullable_pattern())
+        g = draw(st.sampled_from([st_follow_pattern, st_unit_nullable_pattern, st_nullable_lead_pattern]))
+        g = draw(g())
     elif dom == "G":
         g = draw(st_follow_chain())
     else:
